@@ -113,7 +113,7 @@ def data_for(dim, q):
     return d
 
 
-def via_sasview(Model, pars, pd, q, cutoff, multiplicity=None, array_for=None):
+def via_sasview(Model, pars, pd, q, cutoff, multiplicity=None, array_for=None, rows=None):
     from sasmodels import weights
     m = Model(multiplicity) if multiplicity is not None else Model()
     for kname, v in pars.items():
@@ -124,6 +124,10 @@ def via_sasview(Model, pars, pd, q, cutoff, multiplicity=None, array_for=None):
             disp = weights.ArrayDispersion()
             p = m._model_info.parameters[n]
             vals, wts = weights.get_weights(t, npts, w, ns, pars[n], p.limits, p.relative_pd)
+            if rows == "most-probable-first":
+                # a table lists its rows in any order: each value keeps the weight of its own row
+                order = np.argsort(-np.asarray(wts), kind="mergesort")
+                vals, wts = np.asarray(vals)[order], np.asarray(wts)[order]
             disp.set_weights(vals, wts)
             m.set_dispersion(n, disp)
         else:
@@ -191,10 +195,11 @@ def run_agree(case, rec):
     if control:
         rec.bucket("multiplicity")
     arr = sorted(pd)[0] if (pd and k % 2 == 0) else None
+    rows = "most-probable-first" if (arr and (k//2 + len(name)) % 2 == 1) else None
     if arr:
-        rec.bucket("array_distribution")
+        rec.bucket("array_distribution", "array_rows:" + (rows or "ascending"))
     spars = {kk: v for kk, v in pars.items() if kk not in control}
-    res["sasview"], sv_obj = via_sasview(Model, spars, pd, q, cutoff, multiplicity=mult, array_for=arr)
+    res["sasview"], sv_obj = via_sasview(Model, spars, pd, q, cutoff, multiplicity=mult, array_for=arr, rows=rows)
     # a clone is its own object: changing the clone's dispersity settings leaves the original's theory alone
     qq0_ = q[0] if len(q) == 1 else [q[0], q[1]]
     if pd:
